@@ -21,12 +21,14 @@ CLAIMS = {
 GOALS = {'quick': ['view after add', 'view after delete', 'view after divide',
                    'view after move', 'observer below the root',
                    'step observer after a step issued a structural update',
-                   'fixed port on a store replaced within one batch'],
+                   'fixed port on a store replaced within one batch',
+                   'observer declared before a wider glob declaration'],
          'thorough': ['view after add', 'view after delete',
                       'view after divide', 'view after move',
                       'observer below the root',
                       'step observer after a step issued a structural update',
-                      'fixed port on a store replaced within one batch']}
+                      'fixed port on a store replaced within one batch',
+                      'observer declared before a wider glob declaration']}
 STUBS = ['observer process: glob port declaring only s.x of each agent, a dict '
          'port on a store that holds an extra undeclared variable, a scalar '
          'port, an output-only port; it compares its states with the harness\'s '
@@ -276,6 +278,11 @@ def body(ctx, cfg):
     kinds = [k if k is not None else ctx.choice('op', len(KINDS))
              for k in cfg['ops']]
     stepobs = bool(cfg.get('stepobs'))
+    # listing order: the observer (whose glob port declares only s.x) before
+    # or after the actor (whose glob port on the same store declares more)
+    obs_first = (not stepobs) and ctx.flag('obs_first')
+    if obs_first:
+        ctx.goal('observer declared before a wider glob declaration')
     below = False if stepobs else ctx.flag('below')
     home = ('h',) if below else ()
     up = ('..',) if below else ()
@@ -306,7 +313,7 @@ def body(ctx, cfg):
     e = None
     try:
         e = _build(ctx, kinds, cfg, ts_a, ts_g, d, extra_p, extra_t, pre,
-                   extra_s, extra_f)
+                   extra_s, extra_f, obs_first)
         e.update(2 * len(kinds) + 2)
     except PathControl:
         raise
@@ -317,7 +324,7 @@ def body(ctx, cfg):
 
 
 def _build(ctx, kinds, cfg, ts_a, ts_g, d, extra_p, extra_t, pre,
-           extra_s=None, extra_f=None):
+           extra_s=None, extra_f=None, obs_first=False):
     class E(hist.LoggedEngine):
         def __init__(self, *a, **kw):
             CTX.update(pre)
@@ -325,4 +332,5 @@ def _build(ctx, kinds, cfg, ts_a, ts_g, d, extra_p, extra_t, pre,
     return hist.build(ctx, kinds, cfg['flavor'], ts_a, ts_g, d,
                       extra_processes=extra_p, extra_topology=extra_t,
                       engine_cls=E, extra_steps=extra_s, extra_flow=extra_f,
+                      extra_first=obs_first,
                       issuer='flowstep' if extra_s else 'process')
